@@ -214,8 +214,10 @@ RT1Chk(v, a, d) ==
 
 \* axiom 2: q = rplus(x, rminus(m2, x)) must be m2.  SubManifold: m2 must lie on the slice through x
 \* (the verified full-space difference has no component in a fixed direction); otherwise not applicable.
-OnSlice(full, F) ==
-  \A i \in F : RLeq(RAbs(full[i + 1]), RMul(Dec(1, -10), RMax(R1, VMaxAbs(full))))
+\* ABSOLUTE bound 1e-11: dropping a fixed component delta moves the result by about delta * (1 + |translation|),
+\* i.e. by about delta relative to max(1, |entries|) - two orders below the 1e-9 that is then demanded.  (A bound
+\* relative to max|full| let a 1.35e-8 rad fixed rotation component with a 911 m lever arm count as "on the slice".)
+OnSlice(full, F) == \A i \in F : RLeq(RAbs(full[i + 1]), Dec(1, -11))
 RECURSIVE RT2Chk(_, _, _, _, _)
 RT2Chk(x, m2, d, q, w) ==
   IF q.t # x.t \/ Len(d) # DofV(x) THEN <<>>            \* already reported by RplusChk / as C07.dof
